@@ -2,12 +2,22 @@
 import glob, json, os
 import vlib
 
-TARGETS = ["Base/Corr.vo", "C19/Model.vo", "C19/Corr.vo", "C19/Spec.vo", "C19/SpecTest.vo", "C19/Proofs.vo", "C19/Props.vo"]
+TARGETS = ["Base/Corr.vo", "C19/Model.vo", "C19/ModelP.vo", "C19/Corr.vo", "C19/Spec.vo", "C19/SpecTest.vo",
+           "C19/ProofsRot.vo", "C19/ProofsList.vo", "C19/ProofsLookup.vo", "C19/ProofsIns.vo", "C19/ProofsDel.vo",
+           "C19/ProofsRun.vo", "C19/ProofsIter.vo", "C19/ProofsIds.vo", "C19/ProofsPar.vo", "C19/Proofs.vo",
+           "C19/Props.vo"]
 PROPS = ["C19/Props.v"]
-PARTIAL = ("Theorems are about the hand-written model coq/C19/Model.v (structural parents; Go's stored Parent "
-           "pointers, Deleted flags and balance fields are compared with the model at every mutating step through a "
-           "checksum of the preorder dump). int is modelled as Z with the int64 wrap written explicitly where the code "
-           "computes value+1.")
+PARTIAL = ("Proved for ALL operation histories with int64 keys, about the hand-written model coq/C19/Model.v: "
+           "(1) every tree of every reachable world is a search tree whose balance fields equal the height difference "
+           "and lie in -1..1 (hence 2^(h/2) <= n+1); (2) the whole observable run (Insert/Delete flags, FindNode, "
+           "FindNodeLE, Clone, key lists, iterator creation/clone/Next incl. live iterators under interleaved "
+           "Insert/Delete/Clone and the MaxInt cursor) equals the run of the set-level specification; (3) insert/delete "
+           "refine sadd/sdel with exact flags and height change. NOT proved inside Coq: the model keeps structural "
+           "parents, so 'stored Parent pointer = structural parent', the Deleted flags and node-identity facts (ids "
+           "distinct, tombstones disjoint from live nodes) are not theorems; they are tied to the implementation by the "
+           "correspondence (checksum of the preorder dump of Value/Balance/Parent at every mutating step, iterator "
+           "outputs at every Next) and by the harness-side structural check of Go's Parent/Deleted fields. int is "
+           "modelled as Z with the int64 wrap written explicitly where the code computes value+1.")
 
 
 def corr(ctx, binary, n, corpus):
